@@ -406,6 +406,10 @@ func (t *Translator) call(st *State, in *ssa.Call) {
 	if t.parent == nil && t.spec != nil && (len(t.spec.Use) > 0) {
 		t.curCall = t.callOrdinal(in)
 	}
+	t.curCallOrd = 0
+	if t.parent == nil && t.spec != nil && len(t.spec.Hints) > 0 {
+		t.curCallOrd = t.callOrdinal(in)
+	}
 	if t.parent == nil && t.spec != nil && len(t.spec.Before) > 0 {
 		if n := t.callOrdinal(in); n > 0 && len(t.spec.Before[n]) > 0 {
 			{
@@ -441,6 +445,10 @@ func (t *Translator) call(st *State, in *ssa.Call) {
 			}
 		}
 	}
+	var prevHeap *HeapState
+	if t.parent == nil && t.spec != nil && len(t.spec.Asserts) > 0 {
+		prevHeap = st.heap.clone()
+	}
 	t.call1(st, in)
 	t.stampVersions(st)
 	t.curCall = 0
@@ -467,6 +475,7 @@ func (t *Translator) call(st *State, in *ssa.Call) {
 				if li == nil {
 					env.pre = nil
 				}
+				env.prev = prevHeap
 				f, _ := env.Eval(cl.E)
 				t.oblige(st, fmt.Sprintf("assert.call%d", n), cl.Label, cl.Tags, f, t.w.pos(in.Pos()), cl.Src)
 				// oblige() assumed f at the current pc: register it as scoped
@@ -558,6 +567,9 @@ func (t *Translator) call1(st *State, in *ssa.Call) {
 func (t *Translator) staticCall(st *State, in *ssa.Call, callee *ssa.Function, args []string, argVals []ssa.Value) []string {
 	spec := t.w.specFor(callee)
 	inRepo := callee.Blocks != nil && callee.Pkg != nil && isRepoPkg(callee.Pkg.Pkg.Path())
+	if inRepo {
+		t.checkCopyInArgs(callee, args, in.Pos())
+	}
 	if spec == nil && inRepo && t.canInline(callee) {
 		return t.inline(st, in, callee, args)
 	}
@@ -571,6 +583,32 @@ func (t *Translator) staticCall(st *State, in *ssa.Call, callee *ssa.Function, a
 		t.vc.note("callee without contract not inlined: %s (write set havocked)", shortFuncName(callee))
 	}
 	return t.applyContract(st, callee, spec, args, argVals, "", in.Pos(), nil)
+}
+
+// checkCopyInArgs: a boxed copy of an interior pointer may be handed to a callee only if the callee cannot write to
+// objects of that type (the write would not reach the enclosing object).
+func (t *Translator) checkCopyInArgs(callee *ssa.Function, args []string, pos token.Pos) {
+	for _, a := range args {
+		ty, ok := t.vc.copyIns[a]
+		if !ok {
+			continue
+		}
+		ws := t.w.calleeWrites(callee)
+		bad := ws.all
+		if stt, isStruct := ty.Underlying().(*types.Struct); isStruct {
+			_ = stt
+			for _, i := range t.usedFieldIdxs(ty) {
+				if ws.arrs[t.w.fieldArr(ty, i).Name] {
+					bad = true
+				}
+			}
+		} else if ws.arrs[t.w.boxArr(ty).Name] {
+			bad = true
+		}
+		if bad {
+			t.vc.unsupportedf("interior pointer passed to %s, which may write through it, in %s at %s", shortFuncName(callee), t.short, t.w.pos(pos))
+		}
+	}
 }
 
 func (t *Translator) havocWrites(st *State, ws *WriteSet, preds map[string]func(string) string, pre *HeapState) {
@@ -729,7 +767,7 @@ func (t *Translator) applyContract(st *State, callee *ssa.Function, spec *FuncSp
 				continue // relevance filter written in the caller's contract (dropping an assumption is sound)
 			}
 			f, _ := env.Eval(c.E)
-			t.assume(st, g(f))
+			t.assumeL(st, g(f), fmt.Sprintf("call%d.%s", t.curCallOrd, c.Label))
 		}
 	}
 	return res
